@@ -12,7 +12,18 @@ What is read (Python `ast`, nothing is executed):
                                           `(nonterminal, finished())` is in its `covering` set, and the exact
                                           bookkeeping of that set (the acyclic repair; the same test cuts the
                                           force-completed rounds of INCOMPLETE mode);
-* `nodes/__init__.py  MAX_REPETITIONS`  — the cap used for open upper bounds at compile time.
+* `nodes/__init__.py  MAX_REPETITIONS`  — the cap the OLD compilation used for open upper bounds;
+* `iterative_parser.py  visitRepetition` — whether an open-ended `{n,}` (`node.internal_max is None`) is compiled to
+                                          n iterations + a right-recursive tail (b48dd899) — `cap := none` — or as
+                                          `{n,MAX_REPETITIONS}` (before) — `cap := some MAX_REPETITIONS`;
+* `iterative_parser.py  predict`        — whether it ends by completing the finished empty derivations of the predicted
+                                          symbol (1d73281f) — `predDone`;
+* `iterative_parser.py  scan_bit`       — the guard `if byte > 0xFF: return False` (1ef12755) — `wideGuard`;
+* `iterative_parser.py  scan_regex`     — whether only an *incomplete* state's match is compared with the previous match
+                                          length (179bde08: an empty match is a match) — `emptyRegex`;
+* `iterative_parser.py  _consume`       — the branch `elif curr_table_idx % 8 != 0: match = False` between the bit scan and
+                                          the payload scans (a33087ac) — `aligned`.
+Each pin has exactly two accepted shapes (the repair present / absent); anything else is refused.
 
 Policy selection (a Python `set` compares hashes first, then `__eq__`):
   duplicate(a, b)  ⇔  a.f == b.f for every field f in  hash_fields ∪ eq_fields
@@ -178,6 +189,109 @@ def covering_cut() -> dict[str, Any]:
     return {"cut": True, "prefix": True}
 
 
+def _ip_func(name: str) -> ast.FunctionDef:
+    cls = find_class(parse_file("language/grammar/parser/iterative_parser.py"), "IterativeParser")
+    return find_func(cls, name)
+
+
+OPEN_TAIL_BODY = [
+    "tail_alts:IterativeParserVisitorReturnType=[[]]",
+    "tail=self.set_implicit_rule(tail_alts)",
+    "tail_alts.append([nt,tail])",
+    "min_nt=self.set_implicit_rule([node_min*[nt]+[tail]])",
+    "self.set_rule(repetition_nt,[[min_nt]])",
+    "return[[(repetition_nt,frozenset())]]",
+]
+
+
+def open_tail() -> bool:
+    """`visitRepetition`: `if node.internal_max is None:` + the tail construction, inside the branch that reads
+    `node.min` / `node.max` (no bounds constraint)"""
+    fn = _ip_func("visitRepetition")
+    hits = [n for n in ast.walk(fn) if isinstance(n, ast.If) and "internal_max" in _norm(n.test)]
+    if not hits:
+        if "internal_max" in _norm(fn):
+            raise Refusal("visitRepetition mentions internal_max outside an `if`")
+        return False
+    if len(hits) != 1 or _norm(hits[0].test) != "node.internal_maxisNone" or hits[0].orelse:
+        raise Refusal("visitRepetition: the open-ended branch has an unknown test")
+    body = [_norm(st) for st in hits[0].body]
+    if body != OPEN_TAIL_BODY:
+        raise Refusal(f"visitRepetition: the open-ended branch has an unknown shape: {body}")
+    return True
+
+
+PRED_DONE = ("fordonein[sforsintable[k].statesifs.position==kands.nonterminal==symbolands.finished()]:"
+             "\nself.complete(done,table,k)")
+
+
+def pred_done() -> bool:
+    """`predict`: after the prediction branches, `for done in [finished states of `symbol` that start in column k]:
+    self.complete(done, table, k)`; the computed-repetition branch returns before it"""
+    fn = _ip_func("predict")
+    body = strip_body(fn)
+    loops = [st for st in body if isinstance(st, ast.For)]
+    if not loops:
+        if "complete" in _norm(fn):
+            raise Refusal("predict calls complete in an unknown shape")
+        return False
+    if len(loops) != 1 or body[-1] is not loops[0]:
+        raise Refusal("predict: expected one trailing loop over the finished states")
+    if _norm(loops[0]).replace("    ", "") != PRED_DONE:
+        raise Refusal(f"predict: the trailing loop has an unknown shape: {_norm(loops[0])}")
+    return True
+
+
+def strip_body(fn: ast.FunctionDef) -> list:
+    return [st for st in fn.body if not (isinstance(st, ast.Expr) and isinstance(st.value, ast.Constant))]
+
+
+def wide_guard() -> bool:
+    """`scan_bit`: `byte = …` ; `if byte > 255: return False` ; `bit = byte >> bit_count & 1`"""
+    body = strip_body(_ip_func("scan_bit"))
+    idx = [i for i, st in enumerate(body) if isinstance(st, ast.Assign) and _norm(st.targets[0]) == "byte"]
+    if len(idx) != 1:
+        raise Refusal("scan_bit: no single assignment to `byte`")
+    i = idx[0]
+    nxt = _norm(body[i + 1]).replace("    ", "")
+    if nxt.startswith("bit="):
+        if nxt != "bit=byte>>bit_count&1":
+            raise Refusal(f"scan_bit: unknown bit extraction {nxt}")
+        return False
+    if nxt != "ifbyte>255:\nreturnFalse" or _norm(body[i + 2]) != "bit=byte>>bit_count&1":
+        raise Refusal(f"scan_bit: unknown statements after `byte = …`: {nxt}")
+    return True
+
+
+def empty_regex() -> bool:
+    """`scan_regex`: the test that discards a match not longer than the previous (incomplete) match"""
+    fn = _ip_func("scan_regex")
+    tests = [_norm(n.test).replace("(", "").replace(")", "") for n in ast.walk(fn)
+             if isinstance(n, ast.If) and "prev_match_length" in _norm(n.test)]
+    if tests == ["state.is_incompleteandmatchandmatch_length<=prev_match_length"]:
+        return True
+    if tests == ["matchandmatch_length<=prev_match_length"]:
+        return False
+    raise Refusal(f"scan_regex: unknown comparison with prev_match_length: {tests}")
+
+
+def aligned_scan() -> bool:
+    """`_consume`: `if dot is bits: scan_bit … [elif curr_table_idx % 8 != 0: match = False] else: regex / bytes`"""
+    fn = _ip_func("_consume")
+    bit_ifs = [n for n in ast.walk(fn) if isinstance(n, ast.If)
+               and _norm(n.test) == "state.dotisnotNoneandstate.dot.is_type(TreeValueType.TRAILING_BITS_ONLY)"]
+    if len(bit_ifs) != 1 or len(bit_ifs[0].orelse) != 1 or not isinstance(bit_ifs[0].orelse[0], ast.If):
+        raise Refusal("_consume: the scan dispatch has an unknown shape")
+    nxt = bit_ifs[0].orelse[0]
+    payload = "state.dotisnotNoneandstate.dot.is_regex"
+    if _norm(nxt.test) == payload:
+        return False
+    if _norm(nxt.test) == "curr_table_idx%8!=0" and [_norm(b) for b in nxt.body] == ["match=False"] \
+            and len(nxt.orelse) == 1 and isinstance(nxt.orelse[0], ast.If) and _norm(nxt.orelse[0].test) == payload:
+        return True
+    raise Refusal(f"_consume: unknown branch after the bit scan: {_norm(nxt.test)}")
+
+
 def max_repetitions() -> int:
     return int(module_constant(parse_file("language/grammar/nodes/__init__.py"), "MAX_REPETITIONS"))
 
@@ -208,13 +322,36 @@ def regenerate() -> dict:
             raise Refusal(f"ParseState hash/eq use fields the model has no policy for: {sorted(extra - {'children'})}")
     except Refusal as e:
         info["refusals"].append(str(e))
+    for key, fn in (("open_tail", open_tail), ("pred_done", pred_done), ("wide_guard", wide_guard),
+                    ("empty_regex", empty_regex), ("aligned", aligned_scan)):
+        try:
+            info[key] = fn()
+        except Refusal as e:
+            info["refusals"].append(str(e))
     info["policy"] = policy
     lean_policy = {"core": ".core", "impl": ".impl", "acyclic": ".acyclic"}.get(policy or "", None)
+    variant = None
+    if lean_policy and not info["refusals"]:
+        variant = {"policy": policy, "cap": None if info["open_tail"] else info["max_repetitions"],
+                   "predDone": info["pred_done"], "aligned": info["aligned"], "wideGuard": info["wide_guard"],
+                   "emptyRegex": info["empty_regex"]}
+    info["variant"] = variant
+
+    def b(x):
+        return "true" if x else "false"
+    if variant:
+        lean_variant = ("some { policy := " + lean_policy + ", cap := " +
+                        ("none" if variant["cap"] is None else f"some {variant['cap']}") +
+                        f", predDone := {b(variant['predDone'])}, aligned := {b(variant['aligned'])}, "
+                        f"wideGuard := {b(variant['wideGuard'])}, emptyRegex := {b(variant['emptyRegex'])} }}")
+    else:
+        lean_variant = "none"
     lines = [
         "/-",
         "GENERATED by harness/translate_earley.py from /repo's current source — do not edit.",
         "The admission policy of the Earley chart as the code has it now (ParseState.__hash__/__eq__, Column.add,",
-        "IterativeParser.complete) and the repetition cap; Props/C06.lean states its verdict for this policy.",
+        "IterativeParser.complete) and which of the parser repairs the source carries (visitRepetition, predict,",
+        "scan_bit, scan_regex, _consume); Props/C04.lean and Props/C06.lean state their verdicts for this variant.",
         "-/",
         "import Model.Earley",
         "namespace FV.Earley.Gen",
@@ -225,9 +362,17 @@ def regenerate() -> dict:
         f"def coveringCut : Bool := {'true' if info.get('covering_cut') else 'false'}",
         f"def prefixCut : Bool := {'true' if info.get('prefix_cut') else 'false'}",
         f"def maxRepetitions : Nat := {info.get('max_repetitions', 20)}",
+        f"def openTail : Bool := {b(info.get('open_tail'))}",
+        f"def predDone : Bool := {b(info.get('pred_done'))}",
+        f"def alignedScan : Bool := {b(info.get('aligned'))}",
+        f"def wideGuard : Bool := {b(info.get('wide_guard'))}",
+        f"def emptyRegex : Bool := {b(info.get('empty_regex'))}",
         "",
         "/-- `none`: the translator refused (the source has a shape the model has no policy for) -/",
         f"def policy : Option Policy := {'some ' + lean_policy if lean_policy else 'none'}",
+        "",
+        "/-- the variant of the parser the source is (`none`: refused) -/",
+        f"def variant : Option Variant := {lean_variant}",
         "",
         "end FV.Earley.Gen",
         "",
